@@ -17,7 +17,7 @@ import zinccodec
 
 REPS = ['"', '\\', '$', '`', ',', ':', ' ', '\n', '\r', '\t', '\b', '\f', '\x00', '\x1f', '\x7f', '<', '>', '[', ']',
         '{', '}', '(', ')', '1', 'a', 'N', u'é', u' ', u'中', u'\ud800', u'\U0001F600', 'n', 'u', 's']
-POSITIONS = ['str', 'uri', 'ref_dis', 'xstr', 'list_elem', 'dict_val', 'ngrid_cell', 'gmeta', 'cmeta']
+POSITIONS = ['str', 'uri', 'ref_dis', 'xstr', 'list_elem', 'dict_val', 'ngrid_cell', 'gmeta', 'cmeta', 'look_ver']
 
 
 def wrap(hs, pos, s):
@@ -33,6 +33,9 @@ def wrap(hs, pos, s):
         return ['a', s, 'b']
     if pos == 'dict_val':
         return {'k': s, 'z': 'e'}
+    if pos == 'look_ver':
+        # a dict that has the tags of a grid: the payload is its "version" and its "column name" (as VALUES, strings)
+        return {'meta': {'ver': s}, 'cols': [{'name': s}]}
     if pos == 'ngrid_cell':
         g = hs.Grid(version='3.0', columns=[('x', []), ('y', [])])
         g.append({'x': s, 'y': 'ny'})
@@ -56,7 +59,7 @@ def batches(hs, pos, strings, size):
                 g.append({'l': 'L', 'r': 'R'})
                 out.append((g, sub))
             continue
-        ver = '3.0' if pos in ('xstr', 'list_elem', 'dict_val', 'ngrid_cell') else ('2.0' if (i // size) % 2 else '3.0')
+        ver = '3.0' if pos in ('xstr', 'list_elem', 'dict_val', 'ngrid_cell', 'look_ver') else ('2.0' if (i // size) % 2 else '3.0')
         g = hs.Grid(version=ver, columns=[('l', []), ('s', []), ('r', [])])
         g.extend([{'l': 'L', 's': wrap(hs, pos, s), 'r': 'R'} for s in chunk])
         out.append((g, chunk))
@@ -241,7 +244,8 @@ def run(tier):
             # text that LOOKS like an escape sequence (a literal backslash followed by escape letters / hex digits)
             '\\u0041', '\\u0022', 'C:\\temp\\u00e9t', '\\U0041', '\\\\u0041', '\\u005c', '\\u005cn', '\\n', '\\t', '\\b',
             '\\$', '\\`', '\\"', 'x\\', '\\u00', '\\u12345', '\\:', '\\/', '\\#', '\\[', '\\@', '\\&', '\\=', '\\;',
-            '%41', '&amp;', '&#65;', '\\x41', '\\101', '\\N{BULLET}', '${x}', '$x', '{0}', '%s']
+            '%41', '&amp;', '&#65;', '\\x41', '\\101', '\\N{BULLET}', '${x}', '$x', '{0}', '%s',
+            '3.0', '2.0', '2', '3', '10 items', '3.0.0', 's:3.0']
     # multi-line text one LINE of which is a typed literal of the other format (first, middle, last line)
     typed = ['n:1', 'm:', 'x:', '-:', 'z:', 's:x', 'r:abc', 't:2020-01-01T00:00:00Z UTC', 'u:http://x', 'b:text/plain', 'c:1.0,2.0',
              'd:2020-01-01', 'h:12:00:00', 'h:12:00', 'x:hex:ff', 'ver:"3.0"', 'N', 'M', '2020-01-01', '12:00:00', '@ref', 'C(1,2)',
